@@ -203,18 +203,35 @@ def _run_shard(args):
         env = san_env(flavour, logprefix)
         if extra_env:
             env.update(extra_env)
-        timeout = 60 + per_case_timeout * len(batch)
+        # watchdog on progress, not on the whole shard: every command writes one flushed line, so an output file that has
+        # not grown for per_case_timeout seconds means the current command hangs
         timed_out = False
         t0 = time.time()
         with open(cmdfile) as fin, open(outfile, 'w') as fout, open(errfile, 'w') as ferr:
             p = subprocess.Popen([binary], stdin=fin, stdout=fout, stderr=ferr, env=env, cwd=workdir)
-            try:
-                rc = p.wait(timeout=timeout)
-            except subprocess.TimeoutExpired:
-                p.kill()
-                p.wait()
-                rc = -9
-                timed_out = True
+            last_size = -1
+            last_change = time.time()
+            rc = None
+            while True:
+                try:
+                    rc = p.wait(timeout=1.0)
+                    break
+                except subprocess.TimeoutExpired:
+                    pass
+                try:
+                    size = os.path.getsize(outfile)
+                except OSError:
+                    size = last_size
+                now = time.time()
+                if size != last_size:
+                    last_size = size
+                    last_change = now
+                elif now - last_change > per_case_timeout:
+                    p.kill()
+                    p.wait()
+                    rc = -9
+                    timed_out = True
+                    break
         # parse the output
         with open(outfile, errors='replace') as f:
             lines = f.read().split('\n')
